@@ -18,6 +18,8 @@ structure St where
   model : ESt := ⟨[], []⟩
   spec : ESt := ⟨[], []⟩
   init : ESt := ⟨[], []⟩
+  /-- servers that gave a shard away in an across-racks move of this case -/
+  acrossSrc : List Nat := []
 
 inductive Ev where
   | D (vid s n keep : Nat) | N (vid s node : Nat) | M (src vid s dst : Nat)
@@ -59,15 +61,21 @@ def difff (n : Nat) (ln : Line) (why : String) : List String :=
   [s!"DIFF {n} {ln.op} {String.intercalate " " ln.args} {why} impl=[{String.intercalate " " (ln.outs.take 40)}]"]
 
 /-- spec side: apply the printed moves to the layout, judging each -/
-def specMoves (phase : String) : ESt → List Ev → ESt × List String
+def specMoves (phase : String) (cap : Nat → Int) : ESt → List Ev → ESt × List String
   | sp, [] => (sp, [])
   | sp, .M src vid s dst :: rest =>
-    let (sp', js) := specMoves phase (sp.move src dst vid s) rest
-    (sp', judgeMove phase sp src vid s dst ++ js)
+    let (sp', js) := specMoves phase cap (sp.move src dst vid s) rest
+    (sp', judgeMove phase sp src vid s dst (some cap) ++ js)
   | sp, .R src vid s dst :: rest =>
-    let (sp', js) := specMoves phase (sp.move src dst vid s) rest
-    (sp', judgeMove phase sp src vid s dst ++ js)
-  | sp, _ :: rest => specMoves phase sp rest
+    let (sp', js) := specMoves phase cap (sp.move src dst vid s) rest
+    (sp', judgeMove phase sp src vid s dst (some cap) ++ js)
+  | sp, _ :: rest => specMoves phase cap sp rest
+
+/-- declared capacity of a server: (max − active)·10 of its hdd disk, 0 without one (inputs of the case) -/
+def capOf (decl : List Decl) (id : Nat) : Int :=
+  match decl.find? (·.id == id) with
+  | some d => if d.hdd then ((d.max : Int) - d.active) * 10 else 0
+  | none => 0
 
 /-- across racks: replay N / M events -/
 def acrossRun : Across → List Ev → Except String Across
@@ -118,11 +126,30 @@ def rackRun : ESt → List Ev → Except String ESt
   | st, .R src vid s dst :: rest => if rackMoveOk st src vid s dst then rackRun (st.move src dst vid s) rest else .error s!"rack-move-not-planned {src}:{vid}.{s}:{dst}"
   | _, _ :: _ => .error "unexpected-event"
 
+/-- coverage of the free-slot boundary: a move onto a server that was the SOURCE of an earlier across-racks
+    move (its counter was credited then), and such a move into that server's last really free slot -/
+def slotCov (cap : Nat → Int) (was : List Nat) : ESt → List Ev → List String
+  | _, [] => []
+  | sp, ev :: rest =>
+    match ev with
+    | .M src vid s dst | .R src vid s dst =>
+      let here := match sp.node? dst with
+        | some d => if was.contains dst then
+            ["COV move.dest-was-across-source"] ++ (if recountFree cap d == 1 then ["COV move.dest-was-across-source.last-slot"] else [])
+          else []
+        | none => []
+      here ++ slotCov cap was (sp.move src dst vid s) rest
+    | _ => slotCov cap was sp rest
+
 def finishPhase (phase : String) (st : St) (n : Nat) (ln : Line) (evs : List Ev) (stateToks : List String)
     (res : Except String ESt) (cov : List String) : St × List String :=
+  let cov := cov ++ (slotCov (capOf st.decl) st.acrossSrc st.model evs).eraseDups
+  let st := if phase == "across" then
+      { st with acrossSrc := st.acrossSrc ++ evs.filterMap fun e => match e with | .M src .. => some src | _ => none }
+    else st
   let impl := parseState st.model stateToks
   -- every phase is judged from the bookkeeping it started with (= the layout, as long as no earlier phase lost track)
-  let (sp', js) := specMoves phase st.model evs
+  let (sp', js) := specMoves phase (capOf st.decl) st.model evs
   let book := judgeBook phase st.model sp' impl
   let detail := String.intercalate " " (ln.op :: ln.args)
   match res with
